@@ -90,6 +90,26 @@ func runC04(e *Env) {
 	if ujo := e.Fn("C04.reader", "size", "unmarshalJSONObject"); ujo != nil {
 		e.FlowAs(map[string]string{"C12.count": "C04.reader"}, func(c *flow.Ctx) { c.RuleCounterSlack(ujo, "MaxObjectKeys") })
 	}
+	// … and with the member limit switched off (0) nothing is refused for its size (C12.zero)
+	e.FlowAs(map[string]string{"LIMIT0": "C04.reader", "C18.L": "C04.reader"}, func(c *flow.Ctx) {
+		c.RuleLimitZero(e.PkgFuncs("size"), "MaxObjectKeys")
+	})
+	// "standalone and nested in structs, slices, maps and pointers": a value nested in a document is handed a slice of
+	// the document's own buffer, spare capacity included — a reader that writes through its input (an append onto it,
+	// a byte patched in place) damages the document around the value (C17.ro for the size readers, filed here)
+	{
+		var entries []*ssa.Function
+		entries = append(entries, parserEntryFuncs(e, "C04.nested", "size")...)
+		for _, m := range unmarshalMethods {
+			if m[0] == "size" {
+				if f := e.P.Method(m[0], m[1], m[2]); f != nil {
+					entries = append(entries, f)
+				}
+			}
+		}
+		e.FlowAs(map[string]string{"C17.ro": "C04.nested"}, func(c *flow.Ctx) { c.RuleInputReadOnly(entries...) })
+		e.S.Floor("C04.nested", 3)
+	}
 	// … and the member loop reads the two members as written: the arms, the duplicate tests, the loop discipline (no
 	// foreign test, no rewriting of a decoded member) and the skipper (C12.keys)
 	e.As(map[string]string{"C12.keys": "C04.reader"}, func() { ruleC12Keys(e) })
